@@ -40,6 +40,9 @@ var gbyTransaction = gbyTable{
 }
 
 func runC11(p *Prog, r *Report) {
+	if want("C11.18") {
+		ruleOptGetters(p, r, "C11.18", "large batches go through a transaction", "Options.GetDisableLargeBatchTransaction")
+	}
 	if want("C11.17") {
 		// Transaction.Get reads its buffer with the same lookup (shared with C01)
 		ruleMemGet(p, r, "C11.17")
